@@ -260,3 +260,12 @@ def run_case(ctx, i, rng):
         for _ in range(40):
             inp = normalize_case(ctx, rng)
         ctx.nontrivial(gen.fingerprint({"mode": 4, "inp": inp}))
+
+
+def extra_stage(tier, seed, tmp):
+    """thorough tier: the repository's own test-suite as a workload under this property's monitors."""
+    if tier != "thorough":
+        return None
+    from ..runner import suite_under_monitors
+
+    return suite_under_monitors("C11", seed, tmp)
